@@ -47,12 +47,13 @@ CLAIMS = {
             "value as supplied (forbidden methods are untouched by normalisation) and the documented bounds (regenerated constants proved equal to 204/200/299/5/86400/-1). Tie: validate suite compares the exact error tree "
             "(shape from errors.Join, type, Value, Reason/Type/bounds), checks non-nil exported pointer types and the `cors: ` message prefix on the Go side.",
             '6/C05', 'Message texts are produced by fmt.Sprintf in Go and are checked by the harness only (prefix), not modelled.'),
-    'C06': ('proof', 'Lean 4 theorems (partial) + relational round-trip suite computed on the Go side + history correspondence',
-            "Theorems C06_ctor / C06_flags / C06_status / C06_render_ipv6 (Props/C06.lean): zero value + Reconfigure(&c) and NewMiddleware(c) are the same function of c; Config() carries the five switches; "
-            "the success status survives Config() + validation; IPv6 hosts are rendered with brackets. The full statement (C06_full: validation accepts Config() and yields the same behaviour; Config() stable after one round trip) "
-            "is NOT proved yet and rests on the tie: the `roundtrip` suite builds four middlewares (from c, from Config(), zero+Reconfigure, Reconfigure(Config())) and compares their Go responses pairwise in both debug modes "
-            "plus Config() stability; the `history` suite includes Reconfigure(Config()) steps; the `validate` suite compares Config() with the model's.",
-            '6/C06', 'PARTIAL: only the clauses named above are theorems; origins/methods/header lists and max-age round trips rest on the differential and relational suites.'),
+    'C06': ('proof', 'Lean 4 theorem (validating Config() succeeds and yields the same handler function; stored-entries semantics of the tree, render = inverse of parse, round trips of the set folds and max-age) + relational round-trip suite computed on the Go side + history correspondence',
+            "Theorem C06_roundtrip (Props/C06.lean): for every accepted configuration whose origin patterns use brackets only around hosts containing a colon, newInternalConfig accepts newConfig icfg, the resulting internal configuration "
+            "gives Serve.serve icfg' = Serve.serve icfg (the same function of debug flag, request and pre-existing headers), and Config() of it agrees with Config() of the original on every field other than Origins (whose elements are among the configured patterns and build an equivalent tree). "
+            "C06_ctor: zero value + Reconfigure(&c) and NewMiddleware(c) are the same function of c; C06_flags, C06_status, C06_render_ipv6. Proof layers: Proofs/Elems.lean (stored entries: elems renders them, the tree denotes the union of their coverages, "
+            "insertion stores only the new entry), Render.lean (Itoa vs the digit readers), RoundTrip.lean (rendering an accepted pattern gives back the string it was parsed from), TreeRoundTrip.lean, CfgRoundTrip.lean, C06Assembly.lean. "
+            "Tie: the `roundtrip` suite builds four middlewares (from c, from Config(), zero+Reconfigure, Reconfigure(Config())) and compares their Go responses pairwise in both debug modes plus Config() stability; the `history` suite includes Reconfigure(Config()) steps; the `validate` suite compares Config() with the model's.",
+            '6/C06', 'Not proved: literal stability of the Origins list of Config() (order/multiplicity under subsumption) and bracketed IPv4 literals; both rest on the roundtrip suite.'),
     'C07': ('proof', 'Lean 4 invariant proof over a lock-level small-step model (any number of threads, any schedule) with programs regenerated from the source + schedule-point harness + race-detector stress',
             "Theorems C07_drf (in every reachable state a thread about to write a guarded field has no concurrent reader/writer of a guarded field) and C07_atomic (when a reader leaves its critical section everything it read there equals the shared state "
             "at that instant and no writer is inside a critical section), by induction over arbitrary traces of arbitrarily many threads running well-locked programs (Props/C07.lean, Model/Conc.lean); C07_facts / C07_wrap_snapshot / C07_only_these / C07_immutable "
